@@ -13,6 +13,10 @@ pub fn eval(sc: &Scenario) -> CaseResult {
         // a spectator speculates with a window of 0: it never simulates a frame its host has not confirmed
         r.violation = out.viols.iter().find(|v| v.clause == "C06.beyond_confirmed").map(|v| ("C04.spectator_beyond_confirmed".to_string(), format!("[{} tick {}] {}", v.node, v.tick, v.msg)));
     }
+    if r.violation.is_none() {
+        // ... and a spectator call that hands out nothing (an error) leaves current_frame() unchanged
+        r.violation = out.viols.iter().find(|v| v.clause == "C06.err_moved").map(|v| ("C04.spectator_stall_moved".to_string(), format!("[{} tick {}] {}", v.node, v.tick, v.msg)));
+    }
     let eq: u64 = out.peers.iter().map(|p| p.gap_eq).sum();
     let stalls: u64 = out.peers.iter().map(|p| p.stalls).sum();
     let ls: u64 = out.peers.iter().map(|p| p.lockstep_stalls).sum();
